@@ -6,6 +6,11 @@
 
 #include "chibi/sexp.h"
 
+#if SEXP_USE_VERIF_HOOKS
+#define VERIF_GC_IMPLEMENTATION 1
+#include "verif_gc.h"
+#endif
+
 #if SEXP_USE_TIME_GC
 #include <sys/resource.h>
 #endif
@@ -84,6 +89,9 @@ void sexp_debug_alloc_sizes(sexp ctx) {
 #endif
 
 void sexp_free_heap (sexp_heap heap) {
+#if SEXP_USE_VERIF_HOOKS
+  VERIF_UNPOISON(heap, sexp_heap_pad_size(heap->size));
+#endif
 #if SEXP_USE_MMAP_GC
   munmap(heap, sexp_heap_pad_size(heap->size));
 #else
@@ -499,16 +507,25 @@ sexp sexp_sweep (sexp ctx, size_t *sum_freed_ptr) {
 #endif
       if (!sexp_markedp(p)) {
         /* free p */
+#if SEXP_USE_VERIF_HOOKS
+        verif_freed(p, size);
+#endif
         sum_freed += size;
         if (((((char*)q) + q->size) == (char*)p) && (q != h->free_list)) {
           /* merge q with p */
           if (r && r->size && ((((char*)p)+size) == (char*)r)) {
             /* ... and with r */
+#if SEXP_USE_VERIF_HOOKS
+            sexp_verif.merge_both++;
+#endif
             q->next = r->next;
             freed = q->size + size + r->size;
             p = (sexp) (((char*)p) + size + r->size);
           } else {
             freed = q->size + size;
+#if SEXP_USE_VERIF_HOOKS
+            sexp_verif.merge_left++;
+#endif
             p = (sexp) (((char*)p)+size);
           }
           q->size = freed;
@@ -516,12 +533,18 @@ sexp sexp_sweep (sexp ctx, size_t *sum_freed_ptr) {
           s = (sexp_free_list)p;
           if (r && r->size && ((((char*)p)+size) == (char*)r)) {
             /* merge p with r */
+#if SEXP_USE_VERIF_HOOKS
+            sexp_verif.merge_right++;
+#endif
             s->size = size + r->size;
             s->next = r->next;
             q->next = s;
             freed = size + r->size;
           } else {
             s->size = size;
+#if SEXP_USE_VERIF_HOOKS
+            sexp_verif.merge_none++;
+#endif
             s->next = r;
             q->next = s;
             freed = size;
@@ -559,6 +582,9 @@ sexp sexp_gc (sexp ctx, size_t *sum_freed) {
   sexp_debug_printf("%p (heap: %p size: %lu)", ctx, sexp_context_heap(ctx),
                     sexp_heap_total_size(sexp_context_heap(ctx)));
 #endif
+#if SEXP_USE_VERIF_HOOKS
+  verif_before_gc(ctx);
+#endif
   sexp_mark_global_symbols(ctx);
   sexp_mark(ctx, ctx);
   sexp_conservative_mark(ctx);
@@ -566,6 +592,9 @@ sexp sexp_gc (sexp ctx, size_t *sum_freed) {
   finalized = sexp_finalize(ctx);
   res = sexp_sweep(ctx, sum_freed);
   ++sexp_context_gc_count(ctx);
+#if SEXP_USE_VERIF_HOOKS
+  verif_after_gc(ctx);
+#endif
 #if SEXP_USE_TIME_GC
   getrusage(RUSAGE_SELF, &end);
   gc_usecs = (end.ru_utime.tv_sec - start.ru_utime.tv_sec) * 1000000 +
@@ -600,6 +629,9 @@ sexp_heap sexp_make_heap (size_t size, size_t max_size, size_t chunk_size) {
   free->next = next;
   next->size = size - sexp_heap_align(sexp_free_chunk_size);
   next->next = NULL;
+#if SEXP_USE_VERIF_HOOKS
+  verif_new_heap(h);
+#endif
 #if SEXP_USE_DEBUG_GC
   fprintf(stderr, SEXP_BANNER("heap: %p-%p data: %p-%p"),
           h, ((char*)h)+sexp_heap_pad_size(size), h->data, h->data + size);
@@ -629,6 +661,9 @@ int sexp_grow_heap (sexp ctx, size_t size, size_t chunk_size) {
   tmp = sexp_make_heap(new_size, h->max_size, chunk_size);
   if (tmp) {
     tmp->next = h->next;
+#if SEXP_USE_VERIF_HOOKS
+    sexp_verif.grows++;
+#endif
     h->next = tmp;
   }
   return (h->next != NULL);
@@ -661,12 +696,18 @@ void* sexp_try_alloc (sexp ctx, size_t size) {
 #endif
         if (ls2->size >= (size + SEXP_MINIMUM_OBJECT_SIZE)) {
           ls3 = (sexp_free_list) (((char*)ls2)+size); /* the tail after ls2 */
+#if SEXP_USE_VERIF_HOOKS
+          VERIF_UNPOISON(ls3, sizeof(struct sexp_free_list_t));
+#endif
           ls3->size = ls2->size - size;
           ls3->next = ls2->next;
           ls1->next = ls3;
         } else {                  /* take the whole chunk */
           ls1->next = ls2->next;
         }
+#if SEXP_USE_VERIF_HOOKS
+        VERIF_UNPOISON(ls2, size);
+#endif
         memset((void*)ls2, 0, size);
         return ls2;
       }
@@ -699,6 +740,9 @@ int sexp_find_fixed_chunk_heap_usage(sexp ctx, size_t size, size_t* sum_freed, s
 #if ! SEXP_USE_MALLOC
 void* sexp_alloc (sexp ctx, size_t size) {
   void *res;
+#if SEXP_USE_VERIF_HOOKS
+  size_t verif_requested = size;
+#endif
   size_t max_freed, sum_freed, total_size=0;
   sexp_heap h = sexp_context_heap(ctx);
 #if SEXP_USE_TRACK_ALLOC_SIZES
@@ -708,6 +752,12 @@ void* sexp_alloc (sexp ctx, size_t size) {
   sexp_uint_t alloc_time;
   struct timeval start, end;
   gettimeofday(&start, NULL);
+#endif
+#if SEXP_USE_VERIF_HOOKS
+  if (verif_gc_due(ctx)) {
+    sexp_verif.forced_gcs++;
+    sexp_gc(ctx, NULL);
+  }
 #endif
   size = sexp_heap_align(size) + SEXP_GC_PAD;
 #if SEXP_USE_TRACK_ALLOC_SIZES
@@ -733,6 +783,10 @@ void* sexp_alloc (sexp ctx, size_t size) {
       sexp_debug_printf("ran out of memory allocating %lu bytes => %p", size, res);
     }
   }
+#if SEXP_USE_VERIF_HOOKS
+  if (sexp_verif.poison && (!sexp_context_globals(ctx) || res != sexp_global(ctx, SEXP_G_OOM_ERROR)))
+    verif_allocated(res, verif_requested, size);
+#endif
 #if SEXP_USE_TRACK_ALLOC_TIMES
   gettimeofday(&end, NULL);
   alloc_time = 1000000*(end.tv_sec - start.tv_sec) + (end.tv_usec - start.tv_usec);
